@@ -22,6 +22,10 @@ def rounds(ctx):
              backends={'ram': 1.0, 'sqlmem': 1.0, 'sqlfile': 0.08}),
         dict(name='all_kinds_d3', consts=speca.constants(MaxDepth=3, MaxDeliver=2, Meas={'m1', 'mp'}),
              backends={'ram': 1.0, 'sqlmem': 1.0, 'sqlfile': 0.05}),
+        dict(name='two_owners_same_study_id_d4', consts=speca.constants(
+            MaxDepth=4, MaxDeliver=1, MaxCount=1, MaxId=2, Studies={'s1', 's2'}, Clients={'w1'}, Params={'p1'}, Meas={'m1'}, SharedStudyId=True,
+            Kinds={'CreateStudy', 'SuggestTrials', 'CompleteTrial', 'DeleteTrial', 'DeleteStudy', 'CreateTrial', 'UpdateMetadata'}),
+             backends={'ram': 1.0, 'sqlmem': 1.0}),
         dict(name='recreate_numbering_d5', consts=speca.constants(
             MaxDepth=5, MaxId=2, MaxCount=1, MaxDeliver=1, Clients={'w1'}, Params={'p1'}, Meas={'m1'}, Vals={'v1'},
             Kinds={'CreateStudy', 'DeleteStudy', 'SuggestTrials', 'GetOperation', 'CheckEarlyStopping'}),
